@@ -10,6 +10,8 @@ R-C02-4  challenges are non-zero and come from the transcript: one challenge_byt
 R-C02-5  closed-form aggregation sum (= R-C01-1)
 R-C02-6  every proof point is decoded before use: decompress() results are converted to Err on None and are the pushed points
 R-C02-7  constants of the range polynomial: radix 2 in `d`, `2^bits - 1`, `y - 1` denominators (conditional idiom rules)
+R-C02-8  batch weighting (= R-C08-1..3): each proof's equation enters the gate under its own fresh non-zero weight, so that defects in
+         different proofs of a batch cannot cancel
 """
 from bpsa.facts import callee_decl, callee_name
 from bpsa.normal import canon
@@ -26,7 +28,7 @@ ASSUMPTIONS = ['merlin challenge bytes are pseudorandom', 'Identity::identity() 
 RULE_TEXT = 'one obligation per structural fact; non-trivial = decided from a dominator, guard or value term'
 
 
-def run(ctx):
+def _run(ctx):
     rep = ctx.rep
     g = weights.gate(ctx, 'R-C02-1')
     if g is None:
@@ -236,3 +238,10 @@ def cfg_succ_chain(ctx, b, bb, n=3):
         out.extend(nxt)
         cur = nxt
     return set(out)
+
+
+def run(ctx):
+    _run(ctx)
+    from . import C08
+    from .common import shared
+    shared(ctx, C08.run, 'R-C08', 'R-C02-8')
